@@ -58,43 +58,24 @@ class Findings:
                 return
             if o.kind == "skipped":
                 return
-            fixed_root_full = o.kind == "err" and o.payload.split(" ")[0] == "WriteZero" and name in ("create_file", "create_dir", "rename")
+            # NotEnoughSpace from a call that adds a directory entry: the only residue the recorded class covers is the
+            # partial long-name run written into the last cluster of a cluster-chain directory that could not grow
             nospace = o.kind == "err" and o.payload.split(" ")[0] == "NotEnoughSpace" and name in ("create_file", "create_dir", "rename")
             v = jd.verdicts.get(oi)
-            self.op_known = None
-            if fixed_root_full: self.op_known = "fixed-root-full-writezero"
-            elif nospace: self.op_known = "nospace-during-entry-write"
-            elif v and v[0] == "bad" and v[1] == "158": self.op_known = "dir-moved-into-itself"
-            elif jd.marks.get(oi) == "respell" and o.kind == "ok": self.op_known = "rename-respell-noop"
             if v and v[0] == "bad":
                 code = int(v[1])
                 obs = "tree" if code in NAMESPACE_CODES else "file"
-                known = None
-                if fixed_root_full:
-                    known = "fixed-root-full-writezero"
-                elif code == 158:
-                    known = "dir-moved-into-itself"
                 self.add(obs, "%s -> %s %s: not an outcome the abstract %s allows (rule %d)" % (
-                    short(o.line), o.kind, o.payload[:60], "tree" if obs == "tree" else "byte-array file", code), oi, known)
-                if known:
-                    # the abstract state can no longer be trusted for this script
-                    self.stop_at = oi
-                    self.collect_wf(oi, seen_issues, fixed_root_full, nospace, name, o)
-                    return
+                    short(o.line), o.kind, o.payload[:60], "tree" if obs == "tree" else "byte-array file", code), oi, None)
             if oi in jd.mismatch:
-                known = self.op_known
-                self.add("match", "after %s the decoded image differs from the abstract tree (names, kinds, sizes or contents)" % short(o.line), oi, known)
+                self.add("match", "after %s the decoded image differs from the abstract tree (names, kinds, sizes or contents)" % short(o.line), oi, None)
                 # one report per script: later ops would only repeat it
                 self.stop_at = oi
-                self.collect_wf(oi, seen_issues, fixed_root_full, nospace, name, o)
+                self.collect_wf(oi, seen_issues, nospace, name, o)
                 return
-            self.collect_wf(oi, seen_issues, fixed_root_full, nospace, name, o)
-            if fixed_root_full or (nospace and oi in jd.wf):
-                # after a partially written entry the on-disk state is damaged for the rest of the script
-                self.stop_at = oi
-                return
+            self.collect_wf(oi, seen_issues, nospace, name, o)
 
-    def collect_wf(self, oi, seen, fixed_root_full, nospace, name, o):
+    def collect_wf(self, oi, seen, nospace, name, o):
         jd = self.jd
         iss = jd.wf.get(oi, [])
         dirty = jd.dirty.get(oi, 0)
@@ -112,13 +93,11 @@ class Findings:
             elif kind in DEFERRED and i in self.excused and i not in seen:
                 # the handles were flushed/dropped and the issue is still there
                 new = True
-            if self.op_known and known is None:
-                known = self.op_known
-            elif kind == "DotDot" and (not new or (name == "rename" and o.kind == "ok")):
-                known = "stale-dotdot-after-dir-move"
-            elif not new:
+            if not new:
                 # a persisting issue is attributed where it first appeared
                 continue
+            if nospace and kind == "OrphanLfn":
+                known = "nospace-during-entry-write"
             seen.add(i)
             self.add("wf", "structural invariant %s violated after %s" % (i, short(o.line)), oi, known)
 
